@@ -247,10 +247,12 @@ def sa_state(sim):
             _bits(sim.simulationarchive_next), int(sim.simulationarchive_next_step), _bits(sim.t), _bits(sim.walltime), int(sim.steps_done)]
 
 
-def _auto_sim():
+def _auto_sim(dt=0.1313, t0=0.0):
     sim = rebound.Simulation()
     sim.add(m=1.0); sim.add(m=1e-3, a=1.0, e=0.1, inc=0.1); sim.add(m=1e-3, a=2.3, e=0.05, omega=0.4)
-    sim.integrator = "whfast"; sim.dt = 0.1313
+    sim.integrator = "whfast"; sim.dt = dt
+    if t0:
+        sim.t = t0
     return sim
 
 
@@ -274,10 +276,11 @@ def job_attach(job, tmp):
         _attach(sim, fn, mode, val)
         out.append({"mode": mode, "val": (_bits(val) if mode != "step" else int(val)), "before": before, "after": sa_state(sim),
                     "size_before": sz0, "size_after": os.path.getsize(fn) if os.path.exists(fn) else -1})
-    for mode, val, other in (("step", 7, 5), ("interval", 7 * 0.1313 + 0.05, 1.0)):
+    for mode, val, other, dt, t0 in (("step", 7, 5, 0.1313, 0.0), ("interval", 7 * 0.1313 + 0.05, 1.0, 0.1313, 0.0),
+                                     ("interval", 7 * 0.1313 + 0.05, 1.0, -0.1313, 0.0), ("interval", 5 * 0.1313 + 0.02, 2.0, -0.1313, 3.5), ("step", 4, 9, -0.1313, -1.0)):
         if os.path.exists(fn):
             os.remove(fn)
-        sim = _auto_sim()
+        sim = _auto_sim(dt, t0)
         for _ in range(job.get("presteps", 3)):
             sim.step()
         obs(sim, mode, val)                      # fresh attach
@@ -304,7 +307,7 @@ def job_autocrash(job, tmp):
     for p in (ref, fn):
         if os.path.exists(p):
             os.remove(p)
-    sim = _auto_sim(); tmax = sim.t + nsteps * sim.dt
+    sim = _auto_sim(job.get("dt", 0.1313), job.get("t0", 0.0)); tmax = sim.t + nsteps * sim.dt
     _attach(sim, ref, mode, val); sim.integrate(tmax, exact_finish_time=0)
     sa = rebound.Simulationarchive(ref, process_warnings=False)
     rt = [_bits(sa.t[i]) for i in range(sa.nblobs)]
@@ -410,6 +413,7 @@ def job_automix(job, tmp):
             close()
             _attach(sim, fname, mode, val); attached = True
             cur = {"n0": nblobs(), "next_step0": int(sim.simulationarchive_next_step), "next0": sim.simulationarchive_next.hex(),
+                   "t_attach": sim.t.hex(), "steps_attach": int(sim.steps_done),
                    "xs_steps": [], "xs_t": [], "sign": (1.0 if sim.dt > 0 else -1.0)}
         elif op[0] == "detach":
             close()
